@@ -134,6 +134,8 @@ def classify(e):
         return 'ref:nospace'
     if type(e).__name__ == 'WriterError':
         return 'ref:writer'
+    if type(e).__name__ == 'ImageFileError' and 'does not look right' in m:
+        return 'ref:class'
     if (isinstance(e, OSError) and 'Expected' in m) or (isinstance(e, ValueError) and 'not enough data' in m) \
             or isinstance(e, EOFError):
         return 'ref:short_read'
@@ -219,7 +221,7 @@ def run_history(h, workdir):
         res = None
         try:
             if kind == 'L':
-                imgs[s] = nib.load(names[int(tok[2])], mmap=(tok[3] == 'T'))
+                imgs[s] = nib.load(names[int(tok[2])], mmap={'T': True, 'F': False, 'R': 'r'}[tok[3]])
                 fill.pop(s, None)
                 res = 'done'
             elif img is None:
@@ -269,7 +271,28 @@ def run_history(h, workdir):
                     cur = np.dtype(img.get_data_dtype())
                     img.set_data_dtype(np.float32 if cur.itemsize == 8 else np.float64)
                 res = 'done'
-            elif kind in 'SW':
+            elif kind == 'C':       # a second image object on the same dataobj (shared proxy / shared array)
+                s2 = int(tok[2])
+                imgs[s2] = type(img).from_image(img)
+                fill.pop(s2, None)
+                res = 'done'
+            elif kind == 'M':       # in-place edit of np.asanyarray(img.dataobj) of a proxy image
+                if isinstance(img.dataobj, np.ndarray):
+                    res = 'done'
+                else:
+                    arr = np.asanyarray(img.dataobj)
+                    ref = np.array(arr)
+                    before = snapshot()
+                    try:
+                        arr[(0,) * arr.ndim] += 1
+                    except ValueError:
+                        pass                      # a read-only array
+                    if snapshot() != before:
+                        print('PRED', hid, k, 'edit_of_returned_array_changed_files', 'sig=-', flush=True)
+                    elif not np.array_equal(np.asanyarray(img.dataobj), ref):
+                        print('PRED', hid, k, 'edit_of_returned_array_changed_image', 'sig=-', flush=True)
+                    res = 'done'
+            elif kind in 'SWT':
                 # W: the save is made with uint8 storage (the class may have to refuse it), then the dtype restored
                 p = int(tok[2])
                 before = snapshot()
@@ -287,7 +310,10 @@ def run_history(h, workdir):
                     if kind == 'W':
                         img.set_data_dtype(np.uint8)
                     try:
-                        nib.save(img, names[p])
+                        if kind == 'T':
+                            img.to_filename(names[p])
+                        else:
+                            nib.save(img, names[p])
                     finally:
                         if kind == 'W':
                             img.set_data_dtype(prev_dt)
